@@ -172,6 +172,18 @@ fn run_case(seed: u64, mode: &str, thorough: bool, lean: &mut Lean, hist: &mut B
     let (model, model_file) = run_model(lean, &w, &base.ids, &seqs, "");
     let model_trace: Vec<String> = model.iter().map(|x| x.1.clone()).filter(|s| !s.is_empty()).collect();
     let real_trace = log_str(&base.log);
+    // the model's trace also has the directory-level events of a rotation (file created, folder fsynced) in their place
+    let real_trace_dir = {
+        let mut parts: Vec<String> = vec![];
+        let mut de = base.dir_events.iter().peekable();
+        for (i, e) in base.log.iter().enumerate() {
+            while let Some((p, ev)) = de.peek() { if *p <= i { parts.push(if ev.starts_with("create:") { "create".into() } else { ev.clone() }); de.next(); } else { break; } }
+            parts.push(log_str(std::slice::from_ref(e)));
+        }
+        for (_, ev) in de { parts.push(if ev.starts_with("create:") { "create".into() } else { ev.clone() }); }
+        parts.join(",")
+    };
+    let real_trace = if no_model() { real_trace } else { real_trace_dir };
     if !no_model() && model_trace.join(",") != real_trace {
         fail!("model-vs-impl", "syscall trace differs:\n model={}\n real ={}", model_trace.join(","), real_trace);
     }
